@@ -160,7 +160,7 @@ Definition is_some {A} (o : option A) : bool := match o with Some _ => true | No
    was before the repair (kept to state the defect, see Props/C04.v). *)
 Definition recv_next (guard : bool) (t : tr) (g : dgram) : rx_res :=
   match u8 (dg_data g) 0 with
-  | None => RxCrash                                   (* data[0]: IndexError *)
+  | None => RxOk RxNone                               (* if not data: return *)
   | Some first_byte =>
       if (19 <? first_byte) && (first_byte <? 64) then
         if dg_bio g && negb (dg_send_ok g) then RxConnErr       (* _write_ssl -> transport._send raised *)
